@@ -705,6 +705,7 @@ func checkC13(r *Run) {
 	r.Rule("C13.R2.dedup", "the dedup test runs inside the persisting transaction (shared with C06.R1); accepted ops are collected only after both writes succeeded and published only on a nil transaction error; persist forwards iff commitTo returned nil and commitTo returns the Commit error", 6)
 	r.Rule("C13.R4.rule", "the dedup/staleness decision is the property's rule: supersedes is true exactly for a newer version, or an equal version from a higher leaseholder (9 orderings); an operation that lost to a stored newer one is never accepted, hence never published", 1)
 	r.Rule("C13.R5.nowait", "in x/observe no blocking channel operation (a receive or send that is not a select alternative next to a default) runs while the observer mutex is held: Notify takes that mutex for every change, so waiting for a handler under it stalls the whole change stream until its buffers overflow and changes are dropped for every subscriber", 2)
+	r.Rule("C13.R6.fanout", "in x/observe every notification loop over the registered handlers visits every handler: no iteration ends the loop (a break meant for a select, a return on a full buffer): a slow subscriber must not cost the others their notifications", 2)
 	r.Rule("C13.R3.wrapper", "txObservable.OnChange is called only by observable.OnChange; the wrapper skips the handler only for ignoreHostLeaseholder && Leaseholder == HostKey()", 2)
 	p, t, a := k.p, k.topo, k.addr
 	pos := p.Position(t.Fn.Pos())
@@ -1120,5 +1121,29 @@ func checkObserverNoWait(r *Run, k *kvCtx) {
 	}
 	if n < 2 {
 		r.Undecide("C13.R5: only %d blocking channel operations found in x/observe (expected >= 2)", n)
+	}
+	// R6: fan-out loops visit every handler
+	nLoops := 0
+	for _, fn := range p.FuncsOfPkg(opkg) {
+		if fn.Body == nil || fn.Decl == nil || !strings.HasPrefix(fn.Decl.Name.Name, "Notify") {
+			continue
+		}
+		inspectNoLit(fn.Body, func(x ast.Node) bool {
+			rng, ok := x.(*ast.RangeStmt)
+			if !ok {
+				return true
+			}
+			sel, ok := ast.Unparen(rng.X).(*ast.SelectorExpr)
+			if !ok || sel.Sel.Name != "handlers" {
+				return true
+			}
+			nLoops++
+			path := p.CFG(fn).loopEarlyExit(rng)
+			r.ObPath("C13.R6.fanout", fn.Name+" visits every registered handler", posOf(p, rng), path == nil, "an iteration can end the loop: the handlers after it (map order: any of them) never see this change", path)
+			return true
+		})
+	}
+	if nLoops < 2 {
+		r.Undecide("C13.R6: only %d handler loops found in x/observe Notify* (expected >= 2)", nLoops)
 	}
 }
